@@ -161,6 +161,33 @@ def is_instance(obj: Any, type_qname: str, parser: ta.XPathParserType | None = N
     raise ElementPathKeyError("unknown type %r" % type_qname)
 
 
+def is_node_instance(node: Any, type_qname: str, parser: ta.XPathParserType | None = None) -> bool:
+    """
+    Checks the type annotation of an element or attribute node against an XSD type.
+    A node annotated with a schema type is an instance of a user-defined type only
+    if its type is that type or is derived from it, not if its value is valid for it.
+    """
+    xsd_type = getattr(node, 'xsd_type', None)
+    if xsd_type is None or type_qname in builtin_atomic_types or type_qname in builtin_list_types:
+        return is_instance(node.typed_value, type_qname, parser)
+
+    for _ in range(32):
+        if xsd_type is None:
+            break
+        elif xsd_type.name == type_qname:
+            return True
+        base_type = getattr(xsd_type, 'base_type', None)
+        if base_type is xsd_type:
+            break
+        xsd_type = base_type
+    else:
+        return is_instance(node.typed_value, type_qname, parser)
+
+    # Raises if the type is unknown also for the schema
+    is_instance(node.typed_value, type_qname, parser)
+    return False
+
+
 def is_sequence_type(value: str, parser: ta.XPathParserType | None = None) -> bool:
     """Checks if a string is a sequence type specification."""
 
